@@ -80,6 +80,6 @@ ASSUMPTIONS = (
 )
 NOT_DECIDED = ('bounded wall-clock time', 'AsyncIter (sync source behind run_in_executor): uses the event loop\'s default executor, no helper of its own',
                'OS-level exit of threads after join() returns')
-SCENARIOS = [('', 'replay/scenarios/c05_thread_leak.py'), ('', 'replay/scenarios/c05_early_close.py'), ('', 'replay/scenarios/c05_stoprequested.py')]
+SCENARIOS = [('', 'replay/scenarios/c05_thread_leak.py'), ('', 'replay/scenarios/c05_early_close.py'), ('', 'replay/scenarios/c05_stoprequested.py'), ('', 'replay/scenarios/c05_async_context_failure.py')]
 ALWAYS_RUN_SCENARIOS = True      # the chain clause (upstream stages end when the last stage ends) is decided only by the bounded stand-in c05_thread_leak.py; all three take < 15 s
 BOUNDED = [{'function': 'chains of operators: an upstream generator is released (hence finalized) when the downstream stage ends -- CPython reference counting, not a contract of any function', 'method': 'runtime scenario replay/scenarios/c05_thread_leak.py', 'bound': '7 pipelines x 6 ways of ending x consumer keeps/drops results', 'counted_as_proved': False}]
